@@ -1028,7 +1028,7 @@ class Exec:
                 try:
                     old_mode, s.specmode = getattr(s, 'specmode', False), True
                     rt = (probe or st).env['$out'].ty if recv == '$out' else s.ev((probe or st).fork(), ast.parse(recv, mode='eval').body).ty
-                    if rt.kind == 'list': pats = ['list:' + repr(rt)]
+                    if rt.kind == 'list': pats = ['list:' + repr(rt.arg)]
                 except Exception: pass
                 finally: s.specmode = old_mode
             if pat.startswith('*.'):
